@@ -284,7 +284,7 @@ func (g *gstate) setparams() Op {
 		a = g.r.Intn(g.n)
 	}
 	en := g.enable
-	if g.r.Chance(1, 3) {
+	if g.r.Chance(1, 4) {
 		en = !en
 	}
 	if a == accGov {
@@ -434,10 +434,29 @@ func genERC20(r *lib.Rand, tier string) History {
 			h.Registry = append(h.Registry, RegEntry{From: t.min, To: target, Ratio: randRatio(r).String()})
 		}
 	}
+	// most tokens get their ERC20 contract right away
+	for _, t := range g.toks {
+		if r.Chance(4, 5) {
+			h.Steps = append(h.Steps, Op{K: "deploy", A: accGov, Nm: 1, Sym: t.sym, Min: t.min, Scale: t.scale})
+			t.deployed = true
+		}
+	}
 	mode := 0
 	for len(h.Steps) < n {
 		t := g.toks[r.Intn(len(g.toks))]
-		switch r.Weighted(3, 8, 7, 6, 2, 2, 2, 1) {
+		if !t.deployed && r.Chance(3, 4) {
+			for _, t2 := range g.toks {
+				if t2.deployed {
+					t = t2
+				}
+			}
+		}
+		if !g.enable && r.Chance(1, 2) { // switched off: back on soon
+			h.Steps = append(h.Steps, Op{K: "setparams", A: accGov, Tax: h.Params.Tax, Ratio: h.Params.Ratio, Base: h.Params.Base, Enable: true, Beacon: true})
+			g.enable = true
+			continue
+		}
+		switch r.Weighted(2, 9, 8, 6, 1, 1, 2, 1) {
 		case 0: // deploy
 			a := accGov
 			if r.Chance(1, 8) {
